@@ -575,10 +575,8 @@ fn ensure_refs<T>(required: BTreeSet<T>, wants: BTreeSet<T>) -> Result<(), error
 where
     T: Ord + ToString,
 {
-    if wants.is_empty() {
-        return Ok(());
-    }
-
+    // N.b. if nothing was advertised then the required references are
+    // missing as well: `CanonicalId::prepare_updates` relies on this.
     let diff = required.difference(&wants).collect::<Vec<_>>();
 
     if diff.is_empty() {
